@@ -798,6 +798,14 @@ async fn run(plan: Plan, root: &std::path::Path, trace: bool) -> Value {
         res["trace_log"] = json!(o.trace_log.clone().unwrap_or_default());
         res["history"] = json!(h.ops);
         res["watchers"] = json!(*watch_logs.borrow());
+        let mut ap = serde_json::Map::new();
+        for (id, n) in w.nodes.iter() {
+            if let Some(n) = n {
+                let obs = n.sm_obs.lock().unwrap();
+                ap.insert(id.to_string(), json!(obs.applies.iter().map(|a| (a.inc, a.index, a.term, a.vtime_ms)).collect::<Vec<_>>()));
+            }
+        }
+        res["applies"] = serde_json::Value::Object(ap);
     }
     if !o.violations.is_empty() {
         res["plan"] = serde_json::to_value(&plan).unwrap();
